@@ -245,6 +245,9 @@ func cycles(c *core.Ctx, r *core.Result, idx int, rng *rand.Rand, verbose bool) 
 		var extra []fixwire.Field
 		if peerFlag {
 			extra = append(extra, lab.F(141, "Y"))
+		} else if hasFlag && rng.Intn(4) == 0 {
+			extra = append(extra, lab.F(141, "N")) // spelled out: no reset is asked for
+			shape.WriteString("|141=N")
 		}
 		// sometimes the logon never completes: the reply is lost (logon timeout) or the application refuses it
 		switch rng.Intn(8) {
